@@ -1,5 +1,6 @@
 """C08 - pruning, retaining and extracting yield exactly the induced subtree."""
 import itertools
+import time
 from fractions import Fraction
 
 import treeutil as tu
@@ -24,11 +25,17 @@ MODELLED_NOT_VERIFIED = [
     "represented by the set of node ids / taxa they accept; update_bipartitions=True is exercised on rooted trees only (on unrooted trees the "
     "re-encoding collapses the basal bifurcation, which is C01/C14 territory)",
 ]
-EXPLANATION = ("Theorems over all trees/predicates: the loop-based in-place mechanisms and the memo-driven extraction equal the recursively "
-               "defined induced subtree `restrict` (prune_eq_restrict, filter_eq_restrict, retain_eq_prune_compl, extract_eq_restrict, "
-               "variants_agree), suppression commutes (restrict_sup), clades of the result are the non-empty restrictions (restrict_clades), "
-               "root-to-leaf and hence leaf-to-leaf lengths are kept (restrict_pathlen), declined suppression moves no length "
-               "(nosuppress_spec), removed nodes are exactly the complement (removed_spec), single survivor (single_survivor).")
+EXPLANATION = ("Theorems over all trees/predicates about the definitions drv_c08 runs: the loop-based in-place mechanisms and the memo-driven "
+               "extraction equal the recursively defined induced subtree `restrict` (prune_eq_restrict, filter_eq_restrict, retain_eq_prune_compl, "
+               "extract_eq_restrict, extract_all_leaves, taxonFilter_restrict, variants_agree; dropLoop_fuel: the loop's fuel suffices), suppression "
+               "after restriction = restriction with merging (restrict_sup_commutes), clades of the result are exactly the non-empty restrictions "
+               "(restrict_clades, restrict_none_clades), leaf-to-leaf and root-to-leaf lengths are kept in Q (restrict_pathlen, restrict_rootlen), "
+               "declined suppression moves no length and keeps node records in order (nosuppress_spec), requested suppression leaves no unary node "
+               "(suppress_no_unary), removed nodes + nodes of the unsuppressed result are a permutation of the input's nodes (removed_spec), a single "
+               "survivor is that leaf with the accumulated length (single_survivor). Hypotheses: taxa on leaves only, taxon-driven filters reject "
+               "taxon-less nodes, distinct node ids, non-zero denominators. Not proved (correspondence + oracle only): prune_subtree, arbitrary "
+               "id-predicates that accept former internal nodes, the internal-node filter flags.")
+
 
 ROOT = {True: "R", False: "U", None: "N"}
 UNROOT = {"R": True, "U": False, "N": None}
@@ -363,7 +370,7 @@ def judge(ctx, case, variant, src, surv, out, expect_removed=None):
         if len(surv) and sup and len([i for i in surv if not src.kids[i]]) == 1:
             kind = "single-survivor"
         elif not sup and sort_nest(got) == sort_nest(build_from_survivors(src, surv, True)):
-            kind = "suppression-declined"
+            kind = "suppression-declined-by-extraction" if out.get("source") is not None else "suppression-declined"
         elif sup and sort_nest(got) == sort_nest(build_from_survivors(src, surv, False)):
             kind = "suppression-requested"
         return fail(kind, "%s(suppress_unifurcations=%s, update_bipartitions=%s): result %s, induced subtree (id taxon length children) is %s" % (
@@ -527,11 +534,7 @@ def subtree_case(ctx, dendropy, case, pending):
         ctx.fail("exception", "prune_subtree raised %s: %s" % (type(e).__name__, str(e)[:200]), case)
         return
     if not kept:
-        surv = {src.root}   # everything below the seed is gone: outside the quantifier, compared with the model only
-        out = {"tree": tree, "idfn": ids.of, "ids": ids}
-        out["nest"] = nest_of(tree.seed_node, ids.of, tree.taxon_namespace)
-        pending.append((line, case, impl_text(out)))
-        return
+        return   # no leaf survives: outside the quantifier of the statement
     out = {"tree": tree, "idfn": ids.of, "ids": ids}
     if not judge(ctx, case, "prune_subtree", src, surv, out):
         pending.append((line, case, impl_text(out)))
@@ -735,6 +738,7 @@ def run(ctx):
     dendropy = __import__("dendropy")
     rng = ctx.rng
     ctx.set_budget(38, 420)
+    ctx.budget_s += time.time() - ctx.t0      # the budget counts from here: waiting for the build lock must not eat the cases
     pending = []
     n = ctx.pick(5000, 60000)
     max_leaves = ctx.pick(12, 30)
@@ -773,7 +777,7 @@ def exhaustive(ctx, dendropy, pending):
     """every non-empty subset K of the leaves: all ordered shapes <= 5 leaves (all variants, both suppress settings),
     all unordered shapes with 6 and 7 leaves (suppress and variant subset rotating)"""
     rng = ctx.rng
-    ctx.budget_s = 840
+    ctx.budget_s += 400
     count = 0
     light = ["prune_taxa", "retain_taxa", "filter_leaf_nodes", "extract_tree_with_taxa", "extract_tree_without_taxa_labels"]
     for n in range(1, 8):
